@@ -1,6 +1,6 @@
 (* C07 proofs, part 5: assignment (right-associative, assign counter) and comma. *)
 From Coq Require Import List NArith Bool Arith Lia.
-From CV Require Import Ast.Defs Ast.Basics Ast.Ctx Ast.Stage1.
+From CV Require Import Ast.Defs Ast.Frag Ast.Basics Ast.Ctx Ast.Stage1.
 Import ListNotations.
 
 Lemma quiet_asgop : forall cpp o r b a l rest,
